@@ -192,6 +192,7 @@ impl World {
         cfg.connect_timeout_ms = ms(&a, "ctimeout");
         cfg.max_concurrent_outstanding_connecting_connections = a.get("maxout").and_then(|v| v.parse().ok());
         cfg.shutdown_idle_timeout_ms = ms(&a, "shutdown_idle");
+        cfg.connection_manager_channel_capacity = a.get("mbox").and_then(|v| v.parse().ok());
         let mut q = anemo::QuicConfig::default();
         q.max_idle_timeout_ms = ms(&a, "idle");
         q.keep_alive_interval_ms = ms(&a, "keepalive");
@@ -217,7 +218,19 @@ impl World {
         if a.get("outlayer") == Some(&"1") {
             b = b.outbound_request_layer(tower::layer::util::Identity::new());
         }
-        match b.start(svc) {
+        // routes=<hex>,<hex>..: the node serves a Router with these routes (every one handled by the node service)
+        let started = match a.get("routes") {
+            Some(list) => {
+                let mut r = anemo::Router::new();
+                for h in list.split(',') {
+                    r = r.route(&String::from_utf8(unhex(h)).unwrap(), svc.clone());
+                }
+                drop(svc);
+                b.start(r)
+            }
+            None => b.start(svc),
+        };
+        match started {
             Ok(net) => {
                 let peer_id = net.peer_id();
                 let port = net.local_addr().port();
